@@ -480,11 +480,11 @@ def make_convex_harness(k):
 @obligation(P, 'O4.convex_quadratic_converges', cap=600)
 def o4(h):
     """FULL real solver (real CG, real dogleg, real acceptance loop, no stub) on every strictly convex quadratic in one
-    variable with curvature in [1/10,10] started within the initial radius 2^k*tr_size of the minimiser (k=0 registered; k>=1 explodes: see DESIGNED_NOT_REGISTERED): reports success, returns the
+    variable with curvature in [1/10,10] started within 2^k initial radii of the minimiser (k=1 registered: Newton step, or one boundary step then Newton; k>=3 does not close: see DESIGNED_NOT_REGISTERED): reports success, returns the
     minimiser, reported objective values never increase (unwinding bound k+3 outer iterations, asserted)"""
     h.encoded('optimism.EquationSolver:trust_region_minimize', 'optimism.EquationSolver:solve_trust_region_minimization', 'optimism.EquationSolver:dogleg_step',
               'optimism.EquationSolver:is_converged', 'optimism.EquationSolver:project_to_boundary_with_coefs', 'optimism.EquationSolver:get_settings')
-    k = 0
+    k = 1
     h.bounds('n=1; f = a x^2/2 + b x with 1/10 <= a <= 10, |b| <= 100, |x0 - x*| <= 2^%d * tr_size; default settings; at most %d outer iterations (unwinding assertion = success flag)' % (k, k + 3))
     h.outside('well-conditioned convex problems in dimension >= 2 and non-quadratic objectives: convergence there is not decidable by this technique within reach')
     px.run_px(h, 'convex[k=%d]' % k, make_convex_harness(k), cap=60, div_mode='goal', sqrt_mode='goal', feas_ms=200,
@@ -492,6 +492,6 @@ def o4(h):
 
 
 DESIGNED_NOT_REGISTERED = [
-    ('O4.convex_quadratic_converges[k>=1]', 'start farther than one initial radius from the minimiser: the unrolled real loop (boundary steps, radius growth) '
-     'produces path conditions whose infeasibility z3 cannot decide within 0.2-1.5 s per branch, so the path tree does not close (no result after 25 min for k=1)'),
+    ('O4.convex_quadratic_converges[k>=3]', 'start farther than 8 initial radii from the minimiser: the unrolled real loop (boundary steps, radius growth) '
+     'produces path conditions whose infeasibility z3 cannot decide within 0.2-1.5 s per branch, so the path tree does not close (no result after 10 min for k=3; k=2 still open after 20 min)'),
 ]
